@@ -279,6 +279,13 @@ def generate(ctx):
         if r.get("status") == "ok":
             have.setdefault(r["cls"], set()).add(r["view"])
     ctx.extra["classes"] = {c: sorted(v) for c, v in have.items()}
+    # thorough: every configuration of the grid is traced (eval, adj); quick: a seeded sample of every class
+    ctx.exhaustive = bool(ctx.thorough)
+    ctx.extra["scope"] = (
+        "whole configuration grid of harness/opgrid.py + harness/jaxpr_ops.py extras: eval and adj of every configuration, "
+        "all nine views of a seeded quarter" if ctx.thorough else
+        f"{PER_CLASS_QUICK} seeded configurations per class (+ 'must' configurations and the complete hand-made grids), eval, adj and two seeded views"
+    )
     return mods
 
 
